@@ -8,6 +8,7 @@ fn main() {
         "c02" => harness::d_verify::c02(&args),
         "c07" => harness::d_codec::c07(&args),
         "c01" => harness::d_sign::c01(&args),
+        "solve" => harness::d_solve::solve(&args),
         "signsampler" => harness::d_sign::signsampler(&args),
         "c10" => harness::d_moments::c10(&args),
         "c13" => harness::d_fft::c13(&args),
